@@ -41,6 +41,11 @@ Proof. intro H; apply Rmin_left; exact H. Qed.
 Lemma Rmin_is_right x y : y <= x -> Rmin x y = y.
 Proof. intro H; apply Rmin_right; exact H. Qed.
 
+(* a maximum whose two arguments cannot be ordered (an exact tie through
+   transcendental functions, e.g. backward (forward censor) against censor) *)
+Lemma Rmax_close a b o t : Rabs (a - o) <= t -> Rabs (b - o) <= t -> Rabs (Rmax a b - o) <= t.
+Proof. intros Ha Hb. unfold Rmax. destruct (Rle_dec a b); assumption. Qed.
+
 Ltac tr_ineq := interval with (i_prec 140).
 
 Ltac tr_unfold :=
@@ -55,7 +60,7 @@ Ltac tr_unfold :=
      logsinh_fwd logsinh_bwd logsinh_jac
      recip_fwd recip_bwd recip_bwd_pinned recip_jac
      rsum rprod softmax_row_ok softmax_fwd_row softmax_fwd softmax_bwd_row softmax_bwd
-     softmax_jac_row softmax_jac
+     softmax_jac_row softmax_jac oflat concat app
      sinh_fwd sinh_bwd sinh_jac
      manly_fwd manly_bwd manly_jac manly_fwd_pinned manly_bwd_pinned manly_jac_pinned
      backward_censored omax
@@ -65,27 +70,45 @@ Ltac tr_unfold :=
      map fold_right forallb negb andb
      sinh cosh tanh arcsinh].
 
-Ltac tr_red := cbv beta iota delta [negb andb forallb map fold_right].
+Ltac tr_red := cbv beta iota delta [negb andb forallb map fold_right oflat concat app].
 
-(* decide one branch test / one max / one min of the goal *)
+(* a term on which `interval` can work: no undecided test / max / min inside *)
+Ltac tr_pure t :=
+  lazymatch t with
+  | context [Rltb _ _] => fail
+  | context [Rleb _ _] => fail
+  | context [Reqb _ _] => fail
+  | context [Rmax _ _] => fail
+  | context [Rmin _ _] => fail
+  | _ => idtac
+  end.
+
+(* decide one branch test / one max / one min of the goal (innermost first:
+   only occurrences whose arguments are pure are attempted) *)
 Ltac tr_step :=
   match goal with
-  | |- context [Rltb ?a ?b] =>
-      first [ rewrite (Rltb_is_true a b) by tr_ineq
-            | rewrite (Rltb_is_false a b) by tr_ineq ]; tr_red
-  | |- context [Rleb ?a ?b] =>
-      first [ rewrite (Rleb_is_true a b) by tr_ineq
-            | rewrite (Rleb_is_false a b) by tr_ineq ]; tr_red
-  | |- context [Reqb ?a ?b] =>
-      first [ rewrite (Reqb_is_false_lt a b) by tr_ineq
-            | rewrite (Reqb_is_false_gt a b) by tr_ineq
-            | rewrite (Reqb_is_true a b) by tr_ineq ]; tr_red
   | |- context [Rmax ?a ?b] =>
+      tr_pure a; tr_pure b;
       first [ rewrite (Rmax_is_left a b) by tr_ineq
             | rewrite (Rmax_is_right a b) by tr_ineq ]
   | |- context [Rmin ?a ?b] =>
+      tr_pure a; tr_pure b;
       first [ rewrite (Rmin_is_left a b) by tr_ineq
             | rewrite (Rmin_is_right a b) by tr_ineq ]
+  | |- context [Rltb ?a ?b] =>
+      tr_pure a; tr_pure b;
+      first [ rewrite (Rltb_is_true a b) by tr_ineq
+            | rewrite (Rltb_is_false a b) by tr_ineq ]; tr_red
+  | |- context [Rleb ?a ?b] =>
+      tr_pure a; tr_pure b;
+      first [ rewrite (Rleb_is_true a b) by tr_ineq
+            | rewrite (Rleb_is_false a b) by tr_ineq ]; tr_red
+  | |- context [Reqb ?a ?b] =>
+      tr_pure a; tr_pure b;
+      first [ rewrite (Reqb_is_false_lt a b) by tr_ineq
+            | rewrite (Reqb_is_false_gt a b) by tr_ineq
+            | rewrite (Reqb_is_true a b) by tr_ineq ]; tr_red
+  | |- Rabs (Rmax ?a ?b - ?o) <= ?t => apply (Rmax_close a b o t)
   end.
 
 Ltac tr_finish :=
